@@ -5,8 +5,11 @@ cd /verif
 git -C /repo diff --quiet || { echo "/repo is dirty"; exit 9; }
 git -C /repo apply /verif/$D/patch.diff || { echo "patch does not apply"; exit 8; }
 START=$(date +%s)
+# the check rewrites evidence/<P>.json: keep the clean-tree evidence (a run on a seeded tree must never be committed as evidence)
+cp evidence/$P.json /tmp/seed_eval_evidence_$P.json 2>/dev/null
 ./check $P "$@" > /tmp/seed_eval.out 2> /tmp/seed_eval.err; RC=$?
 git -C /repo checkout -- .
+cp /tmp/seed_eval_evidence_$P.json evidence/$P.json 2>/dev/null
 V=$(grep -c "^VIOLATION" /tmp/seed_eval.out); [ $RC = 1 ] && [ $V = 0 ] && RC="1(NO-VIOLATION-LINE: check crashed?)"
 echo "== $P $D rc=$RC ($(( $(date +%s) - START ))s)"
 grep -E "^(VIOLATION|FAILED-OBLIGATION|KNOWN-FINDING)" /tmp/seed_eval.out | cut -c1-230
